@@ -7,7 +7,7 @@ Driver for C12.  Request lines (tokens separated by blanks):
   solvel <R> <U|L> <A> <Y>        (x·a = y)
   solvev <R> <U|L> <A> <b>        (b is an n×1 matrix)  reply  ok <dense x>
   inv    <R> <U|L> <A>
-  schur  <R> <U|L> <r> <wt> <M>   reply  ok <dense S> <t>   (t = 1 iff the transfer maps are absent and wt = 0, or present and satisfy the identities)
+  schur  <R> <U|L> <r> <wt> <M>   reply  ok <dense S> <t>   (t = 1 iff wt = 0, or the transfer maps are present and satisfy the identities)
   decomp <R> <M>                  reply  ok <group>*   group = rows|cols (comma separated, `-` for none), sorted by first column
   uf <n> <op>*                    ops  u:i:j  s:i:j  g     reply: one token per s/g op
 
@@ -80,10 +80,10 @@ def eqE (A B : SpMat α) : Bool :=
   (List.range A.nrows).all fun i => (List.range A.ncols).all fun j => isZero (sub (entry A i j) (entry B i j))
 
 def transferOk (M : SpMat α) (o : SchurOut α) (wt : Bool) : Bool :=
+  if !wt then true else
   match o.src, o.tgt with
   | some (fs, bs), some (ft, bt) =>
     eqE (mulE (mulE ft M) bs) o.s && eqE (mulE fs bs) (idMat fs.nrows) && eqE (mulE ft bt) (idMat ft.nrows)
-  | none, none => !wt
   | _, _ => false
 
 def natList (l : List Nat) : String := if l.isEmpty then "-" else ",".intercalate (l.map toString)
